@@ -515,8 +515,22 @@ func okReply() []byte {
 	return b
 }
 
+// clientTiming: real-time scenarios.  A finding must persist when the scenario is repeated with a four times larger timeout
+// (on a heavily loaded machine a reply "within T/2" can take longer than T = 250 ms: that is the machine, not the Client).
 func clientTiming(rep *Report, viol func(string, map[string]interface{})) {
-	T := 250 * time.Millisecond
+	var first []map[string]interface{}
+	clientTimingAt(250*time.Millisecond, rep, func(kind string, m map[string]interface{}) { first = append(first, m) })
+	if len(first) == 0 {
+		return
+	}
+	rep.Distribution["client-timing-confirmation-runs"]++
+	clientTimingAt(time.Second, rep, func(kind string, m map[string]interface{}) {
+		m["confirmed"] = "persisted with the timeout raised from 250 ms to 1 s"
+		viol(kind, m)
+	})
+}
+
+func clientTimingAt(T time.Duration, rep *Report, viol func(string, map[string]interface{})) {
 	ok := okReply()
 	// (a) five exchanges, each answered after T/2: the connection outlives T
 	func() {
